@@ -162,6 +162,22 @@ Example C16_cycle_example :
   link_spec_ok ex_cyc_ds ex_cyc_ls (run nofix ex_cyc_ds ex_cyc_ls) = true.
 Proof. vm_compute. auto. Qed.
 
+(* an attribute whose value is None (or 0, "", False) is a value like any other: c.an --> a.l0 hands None to a, and
+   compute_fn(c.ae, c.an) is called with both arguments ("" and None) *)
+Definition ex_none_ds : list decl := decls_from 0 [ShG; ShG; ShS].
+Definition ex_none_ls : list link :=
+  [mk 0 [nm 2; s_an] [nm 0] false;
+   {| l_id := 1; l_srcs := [key [nm 2; s_ae]; key [nm 2; s_an]]; l_target := key [nm 1; param 1]; l_fn := true |}].
+Example C16_none_valued_attribute_is_passed :
+  run allfix ex_none_ds ex_none_ls
+  = (OOk, [ENew (nm 2) []; ECall 1 [BLit 2; BLit 0]; ENew (nm 1) [(1, VFn 1 [BLit 2; BLit 0])];
+           ENew (nm 0) [(0, VBase (BLit 0))]]) /\
+  link_spec_ok ex_none_ds ex_none_ls (run allfix ex_none_ds ex_none_ls) = true /\
+  (* a run that drops the None argument or leaves the target at its default is refused by the spec *)
+  link_spec_ok ex_none_ds ex_none_ls
+    (OOk, [ENew (nm 2) []; ECall 1 [BLit 2]; ENew (nm 1) [(1, VFn 1 [BLit 2])]; ENew (nm 0) []]) = false.
+Proof. vm_compute. auto. Qed.
+
 Example C16_small_space_nontrivial :
   length layouts_upto3 = 27 /\ length layouts_flat4 = 16 /\
   length (link_seqs (components (decls_from 0 [ShSN; ShG]))) = 600 /\
